@@ -43,6 +43,7 @@ type Contract struct {
 	Requires []Clause
 	Assume   []Clause
 	Cases    []Clause
+	CasesPost []Clause // casesplitpost: cases evaluated in the exit state
 	Ghosts   [][2]string
 	AssumePost []Clause
 	Lets     []LetDef
@@ -656,8 +657,9 @@ func (cs *ContractSet) parseLines(lines []string, file, pkgPath, schemaDir strin
 			var e ast.Expr
 			e, err = ParseSpecExpr(strings.TrimSpace(rest[eq+1:]))
 			cur.CallGhosts = append(cur.CallGhosts, LetDef{Name: strings.TrimSpace(rest[:eq]), Src: rest[eq+1:], Expr: e})
-		case "casesplit":
+		case "casesplit", "casesplitpost":
 			// casesplit E1 | E2 | ...: every ensures obligation is proved once per case and once for "none of them"
+			// (casesplitpost: the cases are evaluated in the exit state)
 			for _, part := range splitTop(rest, "|") {
 				if strings.TrimSpace(part) == "" {
 					continue
@@ -667,7 +669,11 @@ func (cs *ContractSet) parseLines(lines []string, file, pkgPath, schemaDir strin
 				if err != nil {
 					break
 				}
-				cur.Cases = append(cur.Cases, c)
+				if kw == "casesplitpost" {
+					cur.CasesPost = append(cur.CasesPost, c)
+				} else {
+					cur.Cases = append(cur.Cases, c)
+				}
 			}
 		case "assume":
 			// instance of an assumed lemma, evaluated at entry (trusted; listed in the evidence)
